@@ -267,7 +267,7 @@ pub fn run(tier: Tier, _part: bool) -> i32 {
     rep.set("deviation_bound_max", json!(tot.max_bound));
     rep.set("evaluations", json!(tot.execs));
     rep.set("distinct_nontrivial", json!(tot.with_switch));
-    rep.set("rule", json!("one evaluation = one complete schedule (<= bound deviations; scheduling points before every system call / futex wait and after every transmission) of tasks that convert 1-2 receivers into streams (0-2 messages queued before conversion, 0-2 sent after, sender dropped before or after conversion), feed them and consume them with futures::executor::block_on or a hand-written poll loop with a parking waker, against the real routing thread"));
+    rep.set("rule", json!("one evaluation = one complete schedule (<= bound deviations; scheduling points before every system call / futex wait and after every transmission) of tasks that convert 1-2 receivers into streams (0-2 messages queued before conversion, 0-2 sent after, sender dropped before or after conversion), feed them and consume them with futures::executor::block_on or a hand-written poll loop with a parking waker, against the real routing thread; schedules are distinct by construction (the depth-first search never repeats a choice sequence) and a schedule counts as non-trivial when it contains at least one context switch; enumerated cases are distinct by construction"));
     rep.assume("the routing thread is a process-global lazy: every execution is a fresh process, so it starts in each execution");
     rep.assume("user-space-only steps (futures mpsc, AtomicWaker) between scheduling points are atomic");
     rep.finish()
